@@ -81,6 +81,29 @@ func groupOf(name, kind string) string {
 	return name
 }
 
+// familyOf is the coarse fallback used when a registered name and its whole
+// group have vanished: all obligations of the same function that stem from the
+// same sort of contract clause. A registered obligation whose name is gone is
+// accepted as renamed only if every obligation of its family that the current
+// tree generates is discharged (so nothing that is generated goes unproved),
+// and it is an unbound contract if the family is empty.
+func familyOf(name, kind string) string {
+	i := strings.Index(name, "/")
+	if i < 0 {
+		return name
+	}
+	fn := name[:i]
+	switch kind {
+	case "inv-init", "inv-pres":
+		return fn + "/inv"
+	case "post":
+		return fn + "/post"
+	case "variant", "decreases":
+		return fn + "/termination"
+	}
+	return name
+}
+
 func contractDerived(kind string) bool {
 	switch kind {
 	case "post", "inv-init", "inv-pres", "variant", "decreases", "lemma":
@@ -391,6 +414,7 @@ func (w *World) checkProperty(p, tier string, seed int, g *generated, reg *Regis
 	byName := map[string]*checkOutcome{}
 	var outcomes []*checkOutcome
 	groupNow := map[string][]*checkOutcome{}
+	familyNow := map[string][]*checkOutcome{}
 	for _, r := range res {
 		oc := &checkOutcome{o: r.o, v: r.v}
 		oc.ok = r.v.Status == "unsat"
@@ -401,14 +425,48 @@ func (w *World) checkProperty(p, tier string, seed int, g *generated, reg *Regis
 		byName[r.o.Name] = oc
 		outcomes = append(outcomes, oc)
 		groupNow[group(r.o)] = append(groupNow[group(r.o)], oc)
+		if !r.o.Cover {
+			familyNow[familyOf(r.o.Name, r.o.Kind)] = append(familyNow[familyOf(r.o.Name, r.o.Kind)], oc)
+		}
 	}
-	// registered obligations that failed: retry once with all back ends and a longer timeout
+	// successors of a registered obligation whose exact name is not generated any more:
+	// the unregistered obligations of its group, or failing that of its family
+	successors := func(name string, e *RegEntry) (members, fresh []*checkOutcome) {
+		members = groupNow[groupOf(name, e.Kind)]
+		if len(members) == 0 && contractDerived(e.Kind) {
+			members = familyNow[familyOf(name, e.Kind)]
+		}
+		for _, m := range members {
+			if !m.reg {
+				fresh = append(fresh, m)
+			}
+		}
+		return
+	}
+	// registered obligations that failed: retry once with all back ends and a longer timeout.
+	// The successors of a vanished registered name stand in for it, so they get the same
+	// treatment (as unregistered obligations they only had the short first stage so far).
 	var retry []*Oblig
+	inRetry := map[string]bool{}
 	for _, oc := range outcomes {
 		if oc.reg && !oc.ok && !oc.o.Cover {
 			retry = append(retry, oc.o)
+			inRetry[oc.o.Name] = true
 		}
 	}
+	for name, e := range reg.Obligations {
+		if !hasTag(e.Props, p) || byName[name] != nil {
+			continue
+		}
+		_, fresh := successors(name, e)
+		for _, m := range fresh {
+			if !m.ok && !m.o.Cover && !inRetry[m.o.Name] {
+				retry = append(retry, m.o)
+				inRetry[m.o.Name] = true
+			}
+		}
+	}
+	sort.Slice(retry, func(i, j int) bool { return retry[i].Name < retry[j].Name })
 	if len(retry) > 0 {
 		rr := runAll(retry, outDir, timeout*4, 8, []string{"z3-new", "z3", "cvc5"}, false)
 		for _, r := range rr {
@@ -471,15 +529,8 @@ func (w *World) checkProperty(p, tier string, seed int, g *generated, reg *Regis
 			}
 			continue
 		}
-		// the name vanished: look at its group
-		gname := groupOf(name, e.Kind)
-		members := groupNow[gname]
-		var fresh []*checkOutcome
-		for _, m := range members {
-			if !m.reg {
-				fresh = append(fresh, m)
-			}
-		}
+		// the name vanished: look at its group, then at its family
+		members, fresh := successors(name, e)
 		switch {
 		case len(fresh) > 0:
 			allOK := true
